@@ -87,9 +87,9 @@ CHECKS = {
          'That every highlight ends at or in front of the start of the '
          'region\'s last line is derived for the regions generate_html forms '
          '(any context >= 0, text ending with a line break; '
-         'C16_highlights_end_inside_their_region); premise not derived: the '
-         'highlights end inside the text (offsets of the position map, '
-         'C01/C14). Which lines a region covers (context arithmetic) and the '
+         'C16_highlights_end_inside_their_region), and that they end inside '
+         'the text follows from a position map that holds offsets of the text '
+         '(..._from_the_map; the range of the map is C01/C14). Which lines a region covers (context arithmetic) and the '
          'no-match branch are part of the byte-exact executable model and are '
          'decided by the correspondence run and the HTML-parsing oracle',
     ref='6/C16, 11.2',
